@@ -36,26 +36,19 @@ Theorem order :
                 forall x y, In x new -> In y (pending s') -> to_us (snd x) <= to_us (fst y).
 Proof. exact order_c. Qed.
 
-(* never_early is FALSE for the code as written.  (a) the reschedule branch of handle_timeout: a schedule on which a
-   handler runs early both with the source's comparisons and with the intended ones. *)
-Theorem never_early_refuted_reschedule :
-  exists evs, Early (run cmp_int evs init) /\ Early (run cmp_src evs init).
-Proof. exact witness_resched_refutes. Qed.
-
-(* (b) the comparisons of the source, decided from the regenerated facts: either they are the intended ones and
-   never_early holds for the source on schedules without expiry inside a critical section, or there is such a
-   schedule on which a handler runs early (today: the `==` typo; witness_eq). *)
-Theorem never_early_source_status :
-  if src_cmp_intended
-  then forall evs, no_cs_fire cmp_src evs init = true -> ~ Early (run cmp_src evs init)
-  else exists evs, no_cs_fire cmp_src evs init = true /\ Early (run cmp_src evs init).
-Proof. exact never_early_src_status. Qed.
-
-(* never_early under explicit hypotheses: the comparisons are the intended ones and no timer expiry is delivered
-   inside a critical section. *)
+(* never_early, for every comparison record that is the intended one and EVERY schedule -- timer expiries may be
+   delivered anywhere, including inside the critical sections (since /repo 918b3df the deferred branch of
+   handle_timeout leaves the bookkeeping untouched): no handler runs before (timer time at constructor entry) + delay. *)
 Theorem never_early :
-  forall c, cmp_ok c -> forall evs, no_cs_fire c evs init = true -> ~ Early (run c evs init).
+  forall c, cmp_ok c -> forall evs, ~ Early (run c evs init).
 Proof. exact never_early_c. Qed.
+
+(* ... and for the comparisons of the source, decided from the regenerated facts (today: the `then` branch). *)
+Theorem never_early_source :
+  if src_cmp_intended
+  then forall evs, ~ Early (run cmp_src evs init)
+  else exists evs, Early (run cmp_src evs init).
+Proof. exact never_early_src_status. Qed.
 
 (* Threshold_Watcher: once; only at a check where the weight exceeds the threshold; at the first such check;
    check function installed exactly while thresholds are pending. *)
